@@ -4,7 +4,7 @@ from props.common import gen_strategy, quiet_logging, Violations
 from worlds.reqpath import ReqPathRun, base_plan, RETRY, RETRY_NEXT_HOST, RETHROW
 
 ID = 'C18'
-TIERS = {'quick': {'runs': 4000, 'budget_s': 55, 'wall_cap': 120, 'block': 60},
+TIERS = {'quick': {'runs': 12000, 'budget_s': 55, 'wall_cap': 120, 'block': 60},
          'thorough': {'runs': 400000, 'budget_s': 840, 'wall_cap': 120, 'block': 60}}
 SHRINK_LISTS = ['requests']
 COVERAGE_RULE = ('one run = real Session/ResponseFuture/ResultSet over 1-3 fake nodes; one page-size list (up to 8 pages, '
